@@ -60,9 +60,9 @@ def explicitField (k : Nat) (inner : Want) (bs : Bytes) : Res (Option (Elem × B
   else
     match readHdr bs with
     | .ok (h, after) =>
-      if after.isEmpty then .err                                   -- "explicit tag has no child"
-      else if h.cls == 2 && h.tag == k && (h.len == 0 || h.compound) then
+      if h.cls == 2 && h.tag == k && (h.len == 0 || h.compound) then
         if h.len == 0 then .err                                    -- zero length explicit tag, not a Flag
+        else if after.isEmpty then .err                            -- "explicit tag has no child" (matching wrapper only)
         else
           match readHdr after with
           | .ok (h2, _) =>
